@@ -125,6 +125,7 @@ Definition rejected (rq : request) (d : dset) : bool :=
       || negb (subset_b pon (strs (f_cols fr)))
       || match hn with Some l => negb (subset_b l (strs (f_cols fr))) | None => false end
       || negb (nodup_c (f_cols fr))
+      || negb (forallb is_str (f_cols fr))
       || negb (forallb (fun b => b) (f_typed fr))
   | Read cols fcols =>
       negb (subset_b cols (d_cols d ++ d_cats d)) || negb (subset_b fcols (d_cols d ++ d_cats d))
@@ -155,7 +156,8 @@ Definition program (rq : request) (d : dset) (eff eff2 : list call * bool) : lis
         Check (subset_b pon (strs (f_cols fr)));                                            (* util.check_column_names *)
         Check (match hn with Some l => subset_b l (strs (f_cols fr)) | None => true end);
         Check (nodup_c (f_cols fr));                                                        (* make_metadata *)
-        Check (forallb (fun b => b) (f_typed fr));                                          (* find_type, column by column *)
+        Check (forallb is_str (f_cols fr));                                                 (* get_column_metadata, column by column *)
+        Check (forallb (fun b => b) (f_typed fr));                                          (* find_type, column by column (fused) *)
         Eff (fst eff) (snd eff) ]
   | Read cols fcols =>
       [ Check (subset_b cols (d_cols d ++ d_cats d));
